@@ -271,13 +271,18 @@ def c33 (cfg : Cl.Cfg) (tr : List CE) (tEnd : Nat) : List Viol :=
   let deadFrom : Nat := ((kaPings.filterMap fun t =>
       let lim := t + (cfg.rc + 1) * cfg.rd
       if pingresps.any (fun tp => tp > t && tp ≤ lim) then none else some lim).foldl min tEnd)
+  -- a Ping() of the application while a keep-alive PINGREQ is unanswered takes over the single PINGREQ
+  -- slot and the PINGRESP (known finding): the orphaned keep-alive exchange can neither be answered nor stopped
+  let takenOverBefore := fun (t : Nat) =>
+    userPings.any fun tu => tu ≤ t && kaPings.any fun tk => tk < tu && tu ≤ tk + (cfg.rc + 1) * cfg.rd
   -- (b) none while asleep or disconnected
   let v1 := kaPings.flatMap fun t =>
     let s := stateAt t
     if (s == .asleep || s == .disconnected) && (nextStateAfter t).all (fun s2 => s2 != .active) &&
        -- the sampled state is exact only at event instants: a wake-up by timer shows up later
        !(states.any fun (ts, s2) => ts ≥ t && s2 == .awake && s == .asleep)
-    then [mk "keepalive-ping-while-not-active" s!"t={t} state={repr s}"] else []
+    then [mk (if takenOverBefore t then "keepalive-ping-while-not-active/user-ping-took-over-the-keepalive-exchange"
+              else "keepalive-ping-while-not-active") s!"t={t} state={repr s}"] else []
   -- (a) at least one per period while active (as long as the client runs)
   let dn := min ((doneAt tr).getD tEnd) deadFrom
   let activeSpans : List (Nat × Nat) :=
@@ -291,7 +296,7 @@ def c33 (cfg : Cl.Cfg) (tr : List CE) (tEnd : Nat) : List Viol :=
       if y > x + period + 50 then
         -- a Ping() of the application while a keep-alive PINGREQ is unanswered takes over the single
         -- PINGREQ slot and the PINGRESP: the keep-alive exchange then runs out of retries
-        let stolen := userPings.any fun tu => kaPings.any fun tk => tk < tu && tu ≤ tk + (cfg.rc + 1) * cfg.rd && tu ≤ y
+        let stolen := takenOverBefore y
         [mk (if stolen then "no-keepalive-ping-for-a-whole-period/user-ping-took-over-the-keepalive-exchange"
              else "no-keepalive-ping-for-a-whole-period") s!"from={x} to={y}"]
       else []
